@@ -37,6 +37,7 @@ type c06Msg struct {
 	tail     []byte
 	faults   []c06Fault
 	framing  bool // a fault changed where fields start: per-fault judgements are off
+	shape    string // number of AS_PATH segments of the base message
 }
 
 const (
@@ -159,6 +160,56 @@ func c06RandBytes(r *vRand, n int) []byte {
 	return b
 }
 
+// AS_PATH shapes that are legal for the peer type (segment types: 1 SET, 2 SEQ, 3 CONFED_SEQ, 4 CONFED_SET).
+// eBGP: only SEQ/SET, one to four segments, SET first / middle / last.  iBGP: anything, including
+// confederation segments at any position and the empty path.  Confederation eBGP: CONFED_SEQ first,
+// then any mix, with further confederation segments in the middle or at the end.
+var c06Shapes = [3][][]byte{
+	{{2}, {2}, {2, 1}, {2, 2}, {1}, {1, 2}, {2, 1, 2}, {2, 2, 2}, {2, 2, 1, 2}, {1, 1}},
+	{{}, {}, {2}, {2, 1}, {1}, {3}, {4}, {3, 2}, {2, 3}, {2, 4}, {2, 3, 2}, {2, 4, 1}, {4, 3, 2, 1}, {2, 2, 3}, {2, 1, 2, 2}},
+	{{3}, {3}, {3, 2}, {3, 4}, {3, 1}, {3, 2, 1}, {3, 3, 2}, {3, 2, 3}, {3, 2, 4}, {3, 4, 2, 1}, {3, 2, 2, 3}},
+}
+
+func c06AsPath(r *vRand, peer int, use2 bool) ([]byte, string) {
+	sh := c06Shapes[peer][r.intn(len(c06Shapes[peer]))]
+	var ap []byte
+	for _, t := range sh {
+		ap = append(ap, c06Seg(t, 1+r.intn(3), use2, r)...)
+	}
+	return ap, fmt.Sprintf("%d", len(sh))
+}
+
+// offsets of the segment headers in a well-formed AS_PATH value
+func c06SegOffsets(val []byte, use2 bool) []int {
+	sz := 4
+	if use2 {
+		sz = 2
+	}
+	var off []int
+	for p := 0; p+2 <= len(val); {
+		off = append(off, p)
+		p += 2 + int(val[p+1])*sz
+	}
+	return off
+}
+
+// first / middle / last, stratified so that each position gets a fair share whatever the length
+func c06PickPos(r *vRand, n int) (int, string) {
+	if n <= 1 {
+		return 0, "first"
+	}
+	switch r.intn(3) {
+	case 0:
+		return 0, "first"
+	case 1:
+		return n - 1, "last"
+	}
+	if n == 2 {
+		return 1, "last"
+	}
+	return 1 + r.intn(n-2), "middle"
+}
+
 var c06UnknownTypes = []int{11, 12, 13, 19, 20, 21, 24, 27, 28, 30, 31, 33, 39, 41, 99, 128, 200, 254, 255}
 
 // c06Base builds a well-formed UPDATE for the peer type.
@@ -180,23 +231,8 @@ func c06Base(r *vRand, peer int) *c06Msg {
 	}
 	if nn > 0 || mp || r.chance(50) {
 		add(0x40, 1, []byte{byte(r.intn(3))})
-		var ap []byte
-		switch peer {
-		case 0:
-			ap = c06Seg(2, 1+r.intn(3), m.use2, r)
-			if r.chance(20) {
-				ap = append(ap, c06Seg(1, 1+r.intn(2), m.use2, r)...)
-			}
-		case 1:
-			if r.chance(50) {
-				ap = c06Seg(2, 1+r.intn(3), m.use2, r)
-			}
-		case 2:
-			ap = c06Seg(3, 1+r.intn(2), m.use2, r)
-			if r.chance(50) {
-				ap = append(ap, c06Seg(2, 1+r.intn(2), m.use2, r)...)
-			}
-		}
+		ap, shape := c06AsPath(r, peer, m.use2)
+		m.shape = shape
 		add(0x40, 2, ap)
 		if nn > 0 || r.chance(30) {
 			if r.chance(8) {
@@ -481,19 +517,23 @@ func c06Inject(r *vRand, m *c06Msg) bool {
 		m.totDelta = k
 		m.framing = true
 		addF("short-tail", c06Withdraw, -1)
-	case 9, 10: // AS_PATH segment faults
+	case 9, 10: // AS_PATH segment faults, at the first / a middle / the last segment
 		i := pickAttr(func(a *c06Attr) bool { return a.typ == 2 && len(a.val) >= 4 })
 		if i < 0 {
 			return false
 		}
 		a := &m.attrs[i]
+		offs := c06SegOffsets(a.val, m.use2)
+		k, _ := c06PickPos(r, len(offs))
+		at := offs[k]
 		switch r.intn(5) {
 		case 0:
-			a.val[0] = byte(r.pick(0, 5, 6, 255))
+			a.val[at] = byte(r.pick(0, 5, 6, 255))
 		case 1:
-			a.val[1] = 0
+			// empty segment: count 0 (its AS numbers stay behind and are read as segment headers)
+			a.val[at+1] = 0
 		case 2:
-			a.val[1] += byte(r.pick(100, 150, 200))
+			a.val[at+1] += byte(r.pick(100, 150, 200))
 		case 3:
 			a.val = a.val[:len(a.val)-1]
 		case 4:
@@ -501,19 +541,54 @@ func c06Inject(r *vRand, m *c06Msg) bool {
 		}
 		a.tag = "segment"
 		addF("aspath-segment", c06Withdraw, 2)
-	case 11: // confederation segment from a plain eBGP peer / plain first segment from a confederation peer
-		i := pickAttr(func(a *c06Attr) bool { return a.typ == 2 && len(a.val) >= 4 })
-		if i < 0 || m.peer == 1 {
+	case 11: // AS_PATH vs peer type: a confederation segment ANYWHERE in a plain eBGP peer's path; a
+		// confederation peer's path that does not start with CONFED_SEQ, or is empty
+		if m.peer == 1 {
+			return false
+		}
+		i := pickAttr(func(a *c06Attr) bool { return a.typ == 2 })
+		if i < 0 {
 			return false
 		}
 		a := &m.attrs[i]
+		offs := c06SegOffsets(a.val, m.use2)
 		if m.peer == 0 {
-			a.val[0] = byte(r.pick(3, 4))
-		} else {
-			a.val[0] = byte(r.pick(1, 2, 4))
+			if len(offs) == 0 {
+				return false
+			}
+			var where string
+			if r.chance(50) {
+				// retype an existing segment
+				k, w := c06PickPos(r, len(offs))
+				a.val[offs[k]] = byte(r.pick(3, 4))
+				where = w
+			} else {
+				// splice an extra confederation segment in front / between / behind
+				k, w := c06PickPos(r, len(offs)+1)
+				at := len(a.val)
+				if k < len(offs) {
+					at = offs[k]
+				}
+				seg := c06Seg(byte(r.pick(3, 4)), 1+r.intn(2), m.use2, r)
+				a.val = append(append(append([]byte{}, a.val[:at]...), seg...), a.val[at:]...)
+				where = w
+			}
+			a.tag = "segment-kind"
+			addF("aspath-confed-"+where, c06Withdraw, 2)
+			return true
 		}
+		if len(offs) == 0 {
+			return false
+		}
+		if r.chance(25) && (len(m.nlri) > 0 || m.find(14) >= 0) {
+			a.val = nil
+			a.tag = "segment-kind"
+			addF("aspath-confed-peer-empty", c06Withdraw, 2)
+			return true
+		}
+		a.val[0] = byte(r.pick(1, 2, 4))
 		a.tag = "segment-kind"
-		addF("aspath-confed", c06Withdraw, 2)
+		addF("aspath-confed-peer-head", c06Withdraw, 2)
 	case 12: // NLRI prefix length
 		if len(m.nlri) == 0 {
 			return false
